@@ -201,10 +201,10 @@ def run(rep, tier):
     rng = core.rng_for(PROP)
     jobs = []
     K = len(ALPHABET)
-    nmax = 3
+    nmax = 3 if tier == "quick" else 4
     for n in range(0, nmax + 1):
         total = K ** n
-        step = 4000
+        step = 4000 if n < 4 else 20000
         for s in range(0, total, step):
             jobs.append(("short", 0, (s, min(total, s + step), n)))
     scale = 1 if tier == "quick" else 12
@@ -217,10 +217,10 @@ def run(rep, tier):
     for _ in range(2 * scale):
         jobs.append(("unicode", rng.randrange(1 << 40), 2500))
     if tier == "thorough":
-        total = K ** 4
-        for _ in range(120):
+        total = K ** 5
+        for _ in range(150):
             s = rng.randrange(0, total - 4000)
-            jobs.append(("short", 0, (s, s + 4000, 4)))
+            jobs.append(("short", 0, (s, s + 4000, 5)))
     cli = []
     for res in core.pool().imap_unordered(gen_inputs, jobs, chunksize=1):
         rep.evaluations += res["n"]
@@ -309,7 +309,7 @@ def run(rep, tier):
             rep.violation("C03/non-utf8", "non-UTF-8 file must be rejected with one read-error line, exit 103, empty stdout: exit %s stdout %r stderr %r" % (o.code, o.out[:40], o.err[:120]),
                           {"src": b, "observed": o.brief()})
     rep.exhaustive = True
-    rep.rule = ("all strings over a %d-symbol alphabet up to length 3 (exhaustive; length 4 sampled in thorough), byte- and token-level mutations of generated valid programs, "
+    rep.rule = ("all strings over a %d-symbol alphabet up to length 3 (exhaustive; length 4 exhaustive and length 5 sampled in thorough), byte- and token-level mutations of generated valid programs, "
                 "truncations at every offset, string-literal fragment soup, arbitrary Unicode; every input goes through the token dump and AST dump hooks of the real lexer/parser "
                 "and the token stream is compared with the reference lexer; a sample is also run through the CLI; distinct by SHA-1; non-trivial = non-empty input (all but one)") % K
     rep.sample({"input": "x := &", "expected": "rejected: 1:6 unexpected '&', exit 103, empty stdout"})
